@@ -186,6 +186,8 @@ RECURSIVE SumWn(_)
 SumWn(bs) == IF bs = <<>> THEN 0 ELSE Head(bs).wn + SumWn(Tail(bs))
 SubOK(b, subs, norm) ==
   /\ Len(subs) >= 1
+  \* branches never share a state object: a later instruction would otherwise act on it once per branch
+  /\ Cardinality({ subs[i].sid : i \in { j \in 1..Len(subs) : subs[j].sid # 0 } }) = Cardinality({ j \in 1..Len(subs) : subs[j].sid # 0 })
   /\ IF Cur.kind = "meas" /\ ~Cur.emits          \* post-selection: a measurement that emits no outcome
      THEN Len(subs) = 1 /\ subs[1].o = <<>> /\ (shots # NoneShots => subs[1].k = b.k)
      ELSE IF Cur.kind = "meas"
@@ -195,7 +197,9 @@ SubOK(b, subs, norm) ==
                   /\ IF Exact THEN LET t == SumW(subs) IN t[1] * norm[2] = norm[1] * t[2]
                      ELSE Abs(SumWn(subs) - norm[1]) <= WTol * (1 + Len(subs))      \* all in units of 1/WUnit
                   /\ Cur.normproj => \A i \in 1..Len(subs) : subs[i].sn = -1 \/ Abs(subs[i].sn - WUnit) <= WTol
-                  /\ Cardinality({ subs[i].o : i \in 1..Len(subs) }) = Len(subs)      \* a distribution: outcomes distinct
+                  \* a projective measurement returns a distribution (outcomes distinct); an imperfect detector may return
+                  \* several branches (one per actual photon number) for the same detected outcome
+                  /\ Cur.normproj => Cardinality({ subs[i].o : i \in 1..Len(subs) }) = Len(subs)
              ELSE /\ \A i \in 1..Len(subs) : subs[i].k >= 1
                   /\ SumK(subs) = b.k
      ELSE /\ Len(subs) = 1 /\ subs[1].o = <<>>
